@@ -86,7 +86,7 @@ func C01(c *Ctx, r *report.Run) error {
 	r.Rule = "for every RPC of every unit (REST verbs, path/query/body placement, codec units as request and response types) x content type {json, x-protobuf}: every enumerated request value (URL-bound fields non-empty) with a populated scripted response, and every enumerated response value with the base request, goes generated client -> in-process wire (request/response serialised to bytes and re-parsed) -> generated server -> recording handler; non-trivial = value has >=1 non-default field; distinct = (unit, rpc, content type, outcome)"
 	var specs []*spec.Spec
 	for _, s := range serviceSpecs(c) {
-		if !hasTag(s, "ctx") { // nesting contexts of annotated messages are C04/C05's subject
+		if !hasTag(s, "ctx") && !hasTag(s, "serveronly") { // nesting contexts of annotated messages are C04/C05's subject; serveronly units have no compilable client (C13)
 			specs = append(specs, s)
 		}
 	}
@@ -167,13 +167,31 @@ func C10(c *Ctx, r *report.Run) error {
 		}
 	}
 	r.Programs = len(specs)
-	w, err := ws.Build(c.Bins, specs, ws.Options{Variant: ws.HC, Tag: "rtHC10", Harness: true})
+	var both, serverOnly []*spec.Spec
+	for _, s := range specs {
+		if hasTag(s, "serveronly") {
+			serverOnly = append(serverOnly, s)
+		} else {
+			both = append(both, s)
+		}
+	}
+	w, err := ws.Build(c.Bins, both, ws.Options{Variant: ws.HC, Tag: "rtHC10", Harness: true})
 	if err != nil {
 		return err
 	}
 	units := blocked(r, w, "C10")
 	if err := RunHarness(c, w, r, "c10", units, nil, specIndex(w)); err != nil {
 		return err
+	}
+	if len(serverOnly) > 0 {
+		// units whose go-client output does not compile (C13 finding): the server half is still checked
+		w2, err := ws.Build(c.Bins, serverOnly, ws.Options{Variant: ws.H, Tag: "rtH10", Harness: true})
+		if err != nil {
+			return err
+		}
+		if err := RunHarness(c, w2, r, "c10", blocked(r, w2, "C10"), nil, specIndex(w2)); err != nil {
+			return err
+		}
 	}
 	// model size: states = stages x outcomes, transitions = enumerated paths
 	r.States = 9 + 17
@@ -212,8 +230,23 @@ func C11(c *Ctx, r *report.Run) error {
 			}
 		}
 	}
-	if err := RunHarness(c, w, r, "c11", split, nil, specIndex(w)); err != nil {
+	// all byte strings of length 3 (16.8M per route) only on two representative routes in the thorough tier
+	var deep, rest []rt.JobUnit
+	for _, u := range split {
+		m := u.Services[0].Methods[0].Name
+		if c.Thorough && (m == "EchoInt64EncodingTest" || m == "Get") {
+			deep = append(deep, u)
+		} else {
+			rest = append(rest, u)
+		}
+	}
+	if err := RunHarness(c, w, r, "c11", rest, nil, specIndex(w)); err != nil {
 		return err
+	}
+	if len(deep) > 0 {
+		if err := RunHarness(c, w, r, "c11", deep, map[string]string{"maxB": "3"}, specIndex(w)); err != nil {
+			return err
+		}
 	}
 	if err := RunHarness(c, w, r, "c11client", split, nil, specIndex(w)); err != nil {
 		return err
